@@ -216,8 +216,14 @@ fn gen_op(rng: &mut Rng, sc: &ThreadScenario, pal: &[u8], depth: usize) -> Op {
             if depth == 0 {
                 let inner = gen_op(rng, sc, pal, 1);
                 match inner {
-                    Op::WithClone(_) | Op::StartIter { .. } | Op::ResumeIter { .. } => inner,
-                    other => Op::WithClone(Box::new(other)),
+                    Op::WithClone(_) | Op::OrphanClone(_) | Op::StartIter { .. } | Op::ResumeIter { .. } => inner,
+                    other => {
+                        if rng.chance(1, 4) {
+                            Op::OrphanClone(Box::new(other))
+                        } else {
+                            Op::WithClone(Box::new(other))
+                        }
+                    }
                 }
             } else {
                 Op::Find(gen_search(rng, sc, pal, s, false))
@@ -519,6 +525,11 @@ pub fn gen_thread(class: &str, seed: u64, idx: u64) -> ThreadScenario {
                     fix_src(b);
                 }
                 Op::WithClone(inner) => fix(inner),
+                Op::OrphanClone(inner) => {
+                    // a third build per op is too expensive to interpret
+                    fix(inner);
+                    *op = Op::WithClone(inner.clone());
+                }
                 Op::StartIter { src, .. } => fix_src(src),
                 _ => {}
             }
